@@ -9,6 +9,7 @@ import (
 
 	v1 "github.com/fatedier/frp/pkg/config/v1"
 	"github.com/fatedier/frp/pkg/msg"
+	"github.com/fatedier/frp/pkg/util/util"
 	"pgregory.net/rapid"
 
 	"verifharness/fx"
@@ -21,11 +22,12 @@ type CCase struct {
 	Kind  string       `json:"kind"` // tcp | tcpmux | stcp
 	End   string       `json:"end"`  // close | drop
 	Users int          `json:"users"`
+	Scope bool         `json:"scope"` // server checks credentials of work connections (NewWorkConns scope): an edited key must be what is checked
 }
 
 func genC(t *rapid.T) CCase {
 	c := CCase{Chain: genChain(t), Kind: rapid.SampledFrom([]string{"tcp", "tcp", "tcpmux", "stcp"}).Draw(t, "kind"),
-		End: rapid.SampledFrom([]string{"close", "drop"}).Draw(t, "end"), Users: rapid.IntRange(1, 2).Draw(t, "users")}
+		End: rapid.SampledFrom([]string{"close", "drop"}).Draw(t, "end"), Users: rapid.IntRange(1, 2).Draw(t, "users"), Scope: rapid.Bool().Draw(t, "scope")}
 	// calls that go wrong at Login end the script early: keep most chains login-friendly
 	if rapid.IntRange(0, 3).Draw(t, "loginfriendly") != 0 {
 		for i := range c.Chain {
@@ -42,6 +44,9 @@ func runC(c CCase) error {
 	st.reset(c.Chain)
 	s, err := fx.StartServer(fx.WithTCPMux(false), fx.WithCfg(func(sc *v1.ServerConfig, b *fx.Block) {
 		sc.UserConnTimeout = 1
+		if c.Scope {
+			sc.Auth.AdditionalScopes = []v1.AuthScope{v1.AuthScopeNewWorkConns}
+		}
 		for i, p := range c.Chain {
 			sc.HTTPPlugins = append(sc.HTTPPlugins, v1.HTTPPluginOptions{Name: fmt.Sprintf("p%d", i), Addr: st.srv.Listener.Addr().String(), Path: fmt.Sprintf("/p%d", i), Ops: p.Ops})
 		}
@@ -73,7 +78,7 @@ func runC(c CCase) error {
 
 	// ---- Login
 	cons, _, allowed, finalUser := expect(c.Chain, "Login", "usr")
-	sc, lerr := fx.ConnectCommon(fx.ScriptedCommon(s), "usr", "", 0, fx.TagWork("T"))
+	sc, lerr := connectSigned(s, c.Scope)
 	if e := checkConsulted("Login", 0, cons, "login"); e != nil {
 		if sc != nil {
 			sc.Close()
@@ -166,7 +171,11 @@ func runC(c CCase) error {
 	for u := 0; u < c.Users; u++ {
 		ucFrom, wcFrom := len(callsFor("NewUserConn")), len(callsFor("NewWorkConn"))
 		consU, _, allowU, _ := expect(c.Chain, "NewUserConn", finalName)
-		consW, _, allowW, _ := expect(c.Chain, "NewWorkConn", "")
+		consW, _, allowW, finalKey := expect(c.Chain, "NewWorkConn", "")
+		if c.Scope && allowW && finalKey != "" {
+			// the plugins edited the (valid) key: the server has to check the EDITED key, which is invalid
+			allowW = false
+		}
 		req0 := sc.ReqWorkCount()
 		var conn net.Conn
 		var line string
@@ -296,4 +305,24 @@ func classC(c CCase) fx.Class {
 func TestCallSites(t *testing.T) {
 	fx.Prelease(3)
 	fx.Run(t, fx.Spec[CCase]{Prop: "C15", Name: "call_sites", Quick: 320, Thorough: 10000, Gen: genC, Run: runC, Class: classC, Journal: true})
+}
+
+// connectSigned logs in; with the NewWorkConns scope its work connections carry a valid key.
+func connectSigned(s *fx.Server, scope bool) (*fx.ScriptedClient, error) {
+	sc, err := fx.Dial(fx.ScriptedCommon(s))
+	if err != nil {
+		return nil, err
+	}
+	sc.AutoWork = fx.TagWork("T")
+	if scope {
+		sc.SignWork = func(m *msg.NewWorkConn) {
+			m.Timestamp = time.Now().Unix()
+			m.PrivilegeKey = util.GetAuthKey(fx.Token, m.Timestamp)
+		}
+	}
+	if err := sc.SendLogin(sc.LoginMsg("usr", "", 0)); err != nil {
+		sc.Close()
+		return nil, err
+	}
+	return sc, nil
 }
